@@ -22,9 +22,12 @@ def run(tier):
     rng = C.SplitMix64(res.seed ^ 0xC01)
     quick = tier == 'quick'
     sets = []   # (label, impl, instances, enum)
-    corpus = L.load_corpus('c01_regressions.txt')
-    if corpus:
-        sets.append(('corpus', 'vpsc', corpus, False))
+    import copy
+    for cname in ('c01_regressions.txt', 'c01_final_scan_rounding.txt'):
+        corpus = L.load_corpus(cname)
+        if corpus:
+            sets.append(('corpus:' + cname, 'vpsc', corpus, False))
+            sets.append(('corpus-avoid:' + cname, 'avoid', copy.deepcopy(corpus), False))
     nid = [0]
 
     def gen(n, nmax, kind='I', hist=True):
@@ -37,6 +40,15 @@ def run(tier):
     sets.append(('inc-avoid', 'avoid', gen(700 if quick else 4000, 12), False))
     sets.append(('static-vpsc', 'vpsc', gen(300 if quick else 1500, 12, 'S'), False))
     sets.append(('inc-vpsc-large', 'vpsc', gen(40 if quick else 600, 40), False))
+
+    def gen_gp(n, nmax):
+        out = []
+        for _ in range(n):
+            nid[0] += 1
+            out.append(L.gen_gp_instance(rng, nid[0], nmax, rng.choice([1, 1000, 1000000, 1000000])))
+        return out
+    sets.append(('gp-histories', 'vpsc', gen_gp(250 if quick else 2500, 12), False))
+    sets.append(('gp-histories-avoid', 'avoid', gen_gp(100 if quick else 1000, 12), False))
     if not quick:
         sets.append(('inc-avoid-large', 'avoid', gen(300, 40), False))
         sets.append(('inc-vpsc-vrun', 'vpsc', gen(12, 300, 'I', False), False))
@@ -60,7 +72,15 @@ def run(tier):
     times = {}
     for label, impl, insts, enum in sets:
         real, drv, errs, dts = L.run_batch(insts, impl, tag='c01' + label, enum=enum)
-        errors += errs
+        byid0 = {i['id']: i for i in insts}
+        for e in errs:
+            if e['kind'] == 'harness' and e.get('last_instance') in byid0:
+                bad = byid0[e['last_instance']]
+                oracle_viol.append({'impl': impl, 'set': label, 'instance': L.ins_json(bad), 'op_index': None, 'replay_input': L.replay_text(bad),
+                                    'what': 'the solver crashed or did not return within the time limit on this instance (harness exit %s)' % e['rc'],
+                                    'stderr_tail': e['stderr'][-600:]})
+            else:
+                errors.append(str(e))
         times[label] = [round(x, 2) for x in dts]
         for t, c in L.histogram(insts).items():
             hist[label + ':' + t] = c
@@ -81,10 +101,19 @@ def run(tier):
                 if d and r['op'] in d['d']:
                     det_stats[d['d'][r['op']]] = det_stats.get(d['d'][r['op']], 0) + 1
             v = L.eval_c01(ins, rs, d, impl)
+            known_here = False
             for x in v:
                 x['set'] = label
+                if x.get('status') == 'throw_char' and d:
+                    r = [r for r in rs if r['op'] == x['op_index']][0]
+                    mstat = (d['m'].get(r['op']) or {}).get('status')
+                    if L.classify_final_scan_rounding(ins, r, mstat):
+                        x['fingerprint'] = 'final_scan_rounding'
+                        x['positions_at_throw'] = r['xf']
+                        x['active_flags'] = r['A']
+                        known_here = True
             oracle_viol += v
-            if ins['kind'] == 'I':
+            if ins['kind'] == 'I' and not known_here:
                 s, det = L.eval_corr(ins, rs, d, impl)
                 corr[s] += 1
                 if s == 'diff':
@@ -94,7 +123,15 @@ def run(tier):
                                 'results': [{'op': r['op'], 'status': r['status'], 'x': r['xf'], 'active': r['A'], 'unsat': r['U']} for r in rs]})
     # ---- decide
     reported = 0
-    for v in oracle_viol[:3]:
+    known_hits = 0
+    for v in oracle_viol:
+        fp = v.get('fingerprint')
+        if fp and res.known_fingerprint(fp):
+            known_hits += 1
+            res.violation(v, fingerprint=fp)
+            continue
+        if reported >= 3:
+            continue
         # minimise before reporting
         try:
             ins0 = L.parse_cpp_instances(v['replay_input'])[0]
@@ -102,7 +139,7 @@ def run(tier):
             v['minimised_replay_input'] = L.replay_text(small)
         except Exception as e:     # shrinking is best effort
             v['minimise_error'] = str(e)
-        res.violation(v)
+        res.violation(v, fingerprint=fp)
         reported += 1
     if det_stats.get('U', 0):
         errors.append('detect returned Unknown %d times' % det_stats['U'])
@@ -123,7 +160,8 @@ def run(tier):
                                        'n=3: 4 desired patterns x every sequence of length<=3 over 6 ordered pairs x 4 gaps'),
                     'samples': samples, 'traces_validated_against_impl': sum(corr.values()),
                     'correspondence': corr, 'input_histogram': hist,
-                    'oracle': {'violations': len(oracle_viol), 'runs_with_flagged_constraints': flagged_runs, 'detector_answers': det_stats},
+                    'known_finding_hits': known_hits,
+                    'oracle': {'violations': len(oracle_viol) - known_hits, 'runs_with_flagged_constraints': flagged_runs, 'detector_answers': det_stats},
                     'set_times_s(harness,driver)': times, 'machinery_errors': errors[:5]})
     return res.finish()
 
